@@ -81,3 +81,15 @@ Definition run_ser_parse (fs : list bytes) : res (list bytes) :=
   let buf := b ++ field fs 1 in
   do (v', s) <- parse_ctx no_resolve None F_ANY MAX_DEPTH (mkLx 0 buf);
   Ok [canon_in buf v'; dec_of_N (lpos s); dec_of_N (lenN b); drop (lpos s) b].
+
+(* save_value: value id gen -> the object as write_revision writes it, read back by parse_indirect_object (C04, placement
+   "indirect-object body") *)
+Definition run_save_value (fs : list bytes) : res (list bytes) :=
+  do v <- of_canon (field fs 0); do b <- ser v;
+  let buf := obj_text (N_of_dec (field fs 1)) (N_of_dec (field fs 2)) b [] in
+  match parse_indirect_object no_resolve false F_ANY (mkLx 0 buf) with
+  | Ok (i, g, v', _) => Ok [canon_in buf v'; dec_of_N i; dec_of_N g; buf]
+  | Err e => Err e
+  | Panic q => Panic q
+  | OutOfFuel => OutOfFuel
+  end.
